@@ -1,5 +1,6 @@
 import Mqtt5V.Proofs.TraceQuota
 import Mqtt5V.Proofs.TraceDisc
+import Mqtt5V.Proofs.TraceDiscT
 import Mqtt5V.Proofs.Sender
 /-! # C09 — async_disconnect: DISCONNECT first and alone (sender core)
 
@@ -101,6 +102,22 @@ example : TraceDisc.accepts [.connUp, .wr, .pkOther, .pkOther, .wrOk, .wr, .pkDi
 example : TraceDisc.accepts [.connUp, .wr, .pkOther, .pkDisc] = false := by decide
 example : TraceDisc.accepts [.connUp, .wr, .pkDisc, .pkOther] = false := by decide
 example : TraceDisc.accepts [.connUp, .wr, .pkDisc, .wrOk, .wr] = false := by decide
+
+/-! ### the 5 s limit (`Model/TraceDiscT.lean`: the timed projection of every H-client transcript must be accepted) -/
+
+/-- **C09 end to end (done within 5 seconds)**: in every accepted timed history the clock never moves on from a moment at or past 5000 ms
+(`Gen.Timing.disconnectLimitMs`, translated from `disconnect_op`) after the initiation of an `async_disconnect` that is still in progress — so the
+operation completes no later than at the first clock value that reaches the limit, whether or not the broker is reachable and whatever the write
+in progress does.  Time and initiation are read off the events alone. -/
+theorem composed_disconnect_done_within_limit (tr : List TraceDiscT.Ev) (ms : Nat) (hacc : TraceDiscT.accepts (tr ++ [.adv ms]) = true) (t0 : Nat)
+    (hp : (TraceDiscT.obs tr).2 = some t0) : (TraceDiscT.obs tr).1 < t0 + 5000 := by
+  simp only [TraceDiscT.accepts, Option.isSome_iff_exists] at hacc
+  obtain ⟨s, hs⟩ := hacc
+  exact Mqtt5V.Proofs.TraceDiscT.disconnect_done_within_limit hs t0 hp
+
+example : TraceDiscT.accepts [.adv 100, .disc, .adv 4999, .adv 1, .done, .adv 7000] = true := by decide
+example : TraceDiscT.accepts [.adv 100, .disc, .adv 5000, .adv 1] = false := by decide
+example : (TraceDiscT.obs [.adv 100, .disc, .adv 4999]).2 = some 100 := by decide
 
 end ComposedModel
 
